@@ -188,6 +188,22 @@ func (ds *Describer) d1(v ssa.Value, depth int) *VD {
 			if us := Unspill(x); us != ssa.Value(x) {
 				return ds.d(us, depth+1)
 			}
+			// a variable assigned more than once (a parameter re-assigned: `ctx, cancel := WithTimeout(ctx, …)` captured by
+			// a closure lives in a cell): the assignment that reaches this read, where dominance decides it
+			switch cell := x.X.(type) {
+			case *ssa.Alloc:
+				if singleStore(cell) == nil {
+					if v := ReachingStore(cell, x); v != nil {
+						return ds.d(v, depth+1)
+					}
+				}
+			case *ssa.FreeVar:
+				if a, ok := FreeVarBinding(cell).(*ssa.Alloc); ok && singleStore(a) == nil {
+					if v := CapturedValue(cell); v != nil {
+						return ds.d(v, depth+1)
+					}
+				}
+			}
 			return ds.d(x.X, depth+1) // load: transparent
 		case token.ARROW:
 			return &VD{Kind: "recv", Args: []*VD{ds.d(x.X, depth+1)}}
@@ -210,6 +226,30 @@ func (ds *Describer) d1(v ssa.Value, depth int) *VD {
 		c := x.Common()
 		if b, ok := c.Value.(*ssa.Builtin); ok && (b.Name() == "len" || b.Name() == "cap") {
 			return &VD{Kind: b.Name(), Args: []*VD{ds.d(c.Args[0], depth+1)}}
+		}
+		// a function that only re-types its argument (`func key(r Root) rootKey { return rootKey(r) }`, same
+		// underlying type) is the identity on values
+		if callee := c.StaticCallee(); callee != nil && len(callee.Params) == 1 && len(c.Args) == 1 && len(callee.Blocks) == 1 && callee.Signature.Results().Len() == 1 {
+			var ret *ssa.Return
+			pure := true
+			for _, in := range callee.Blocks[0].Instrs {
+				switch y := in.(type) {
+				case *ssa.ChangeType:
+					if y.X != ssa.Value(callee.Params[0]) {
+						pure = false
+					}
+				case *ssa.DebugRef:
+				case *ssa.Return:
+					ret = y
+				default:
+					pure = false
+				}
+			}
+			if pure && ret != nil && len(ret.Results) == 1 {
+				if ct, ok := ret.Results[0].(*ssa.ChangeType); ok && ct.X == ssa.Value(callee.Params[0]) && types.Identical(ct.Type().Underlying(), callee.Params[0].Type().Underlying()) {
+					return ds.d(c.Args[0], depth+1)
+				}
+			}
 		}
 		r := &VD{Kind: "call", Name: CalleeName(c)}
 		if c.IsInvoke() {
